@@ -1,4 +1,5 @@
-(* C16 - the enlarged pure fragment: operators, operator chains, index, natives and methods on related arguments. *)
+(* C16 - the enlarged pure fragment: operators (third deepening: `fmt % scalar` through fmt_rel, d | e), operator chains, index
+   and slices (vslice_sim: a window of the same array in asp, a copy in CPython) on related arguments. *)
 From Coq Require Import Lia.
 From PlzV Require Import Base.Harness Base.StrFacts Gen.AspTables Model.C16_Syntax Model.C16_Ops Model.C16_Prim Model.C16_Eval Model.C16 Model.C16_Pure Model.C16_Sort Model.C16_Pure2.
 From PlzV Require Import Proof.C16_Ops Proof.C16_Int Proof.C16_Pure Proof.C16_Pure2U Proof.C16_Pure2R.
@@ -63,6 +64,100 @@ Section Prim.
       end.
   Proof. intros f o x y st H. destruct o; try discriminate; reflexivity. Qed.
 
+  Lemma vstr_top_rel : forall f st p v x, vr st p v -> qstr p = Some x -> vstr d (S f) st true v = Ok x.
+  Proof.
+    intros f st p v x Hv H. destruct p; try discriminate; cbn [vrel] in Hv; subst v; injection H as <-; try reflexivity. destruct d; reflexivity.
+  Qed.
+
+  Ltac split_char :=
+    repeat match goal with
+           | H : context [match ?p with xI _ => _ | xO _ => _ | xH => _ end] |- _ => is_var p; destruct p; cbv beta iota in H |- *
+           | H : context [match ?c with N0 => _ | Npos _ => _ end] |- _ => is_var c; destruct c; cbv beta iota in H |- *
+           end.
+
+  Lemma fmt_rel : forall f st n x pargs args r, (length x <= n)%nat -> vrels d (hp st) pargs args -> qfmt x pargs = Ok r ->
+    fmt_go d (S f) st x args = Ok r.
+  Proof.
+    intros f st n. induction n as [|n IH]; intros x pargs args r Hn Ha H.
+    - destruct x; [|cbn in Hn; lia]. cbn [qfmt fmt_go] in *. destruct pargs; [|discriminate]. inversion Ha; subst. exact H.
+    - destruct x as [|c x].
+      + cbn [qfmt fmt_go] in *. destruct pargs; [|discriminate]. inversion Ha; subst. exact H.
+      + cbn [length] in Hn.
+        assert (Hother : forall c0, (do y <- qfmt x pargs; Ok (c0 :: y)) = Ok r -> (do y <- fmt_go d (S f) st x args; Ok (c0 :: y)) = Ok r).
+        { intros c0 H0. destruct (qfmt x pargs) as [y| |] eqn:Ey; try discriminate. rewrite (IH x pargs args y ltac:(lia) Ha Ey). exact H0. }
+        destruct x as [|c2 x2].
+        * (* a single character: never a verb *)
+          cbn [qfmt fmt_go] in H |- *. split_char; try discriminate; try (now apply Hother).
+        * cbn [length] in Hn.
+          assert (Hpct : (do y <- qfmt x2 pargs; Ok (37%N :: y)) = Ok r -> (do y <- fmt_go d (S f) st x2 args; Ok (37%N :: y)) = Ok r).
+          { intros H0. destruct (qfmt x2 pargs) as [y| |] eqn:Ey; try discriminate. rewrite (IH x2 pargs args y ltac:(lia) Ha Ey). exact H0. }
+          assert (Hs : match pargs with
+                       | a :: ar => match qstr a with Some z => do y <- qfmt x2 ar; Ok (z ++ y) | None => Err EUnsupported end
+                       | [] => Err EUnsupported
+                       end = Ok r ->
+                       match args with
+                       | a :: ar => do z <- vstr d (S f) st true a; do y <- fmt_go d (S f) st x2 ar; Ok (z ++ y)
+                       | [] => Err (match d with Asp => EUnsupported | Py => EType end)
+                       end = Ok r).
+          { intros H0. destruct Ha as [|pa a par ar Hpa Hpar]; [discriminate|]. destruct (qstr pa) as [z|] eqn:Ez; [|discriminate].
+            rewrite (vstr_top_rel f st pa a z Hpa Ez). cbn [rbind].
+            destruct (qfmt x2 par) as [y| |] eqn:Ey; try discriminate. rewrite (IH x2 par ar y ltac:(lia) Hpar Ey). exact H0. }
+          assert (Hd : match pargs with
+                       | QInt z :: ar => do y <- qfmt x2 ar; Ok (z_to_str z ++ y)
+                       | _ => Err EUnsupported
+                       end = Ok r ->
+                       match args with
+                       | VInt z :: ar => do y <- fmt_go d (S f) st x2 ar; Ok (z_to_str z ++ y)
+                       | _ => Err (match d with Asp => EUnsupported | Py => EType end)
+                       end = Ok r).
+          { intros H0. destruct Ha as [|pa a par ar Hpa Hpar]; [discriminate|]. destruct pa; try discriminate. cbn [vrel] in Hpa. subst a.
+            destruct (qfmt x2 par) as [y| |] eqn:Ey; try discriminate. rewrite (IH x2 par ar y ltac:(lia) Hpar Ey). exact H0. }
+          assert (Hother2 : forall c0, (do y <- qfmt (c2 :: x2) pargs; Ok (c0 :: y)) = Ok r -> (do y <- fmt_go d (S f) st (c2 :: x2) args; Ok (c0 :: y)) = Ok r)
+            by exact Hother.
+          clear Hother IH.
+          change (qfmt (c :: c2 :: x2) pargs) with
+            (match c :: c2 :: x2 with
+             | [] => match pargs with [] => Ok [] | _ => Err EUnsupported end
+             | 37%N :: 37%N :: r0 => do y <- qfmt r0 pargs; Ok (37%N :: y)
+             | 37%N :: 115%N :: r0 =>
+                 match pargs with
+                 | a :: ar => match qstr a with Some z => do y <- qfmt r0 ar; Ok (z ++ y) | None => Err EUnsupported end
+                 | [] => Err EUnsupported
+                 end
+             | 37%N :: 100%N :: r0 => match pargs with QInt z :: ar => do y <- qfmt r0 ar; Ok (z_to_str z ++ y) | _ => Err EUnsupported end
+             | 37%N :: _ => Err EUnsupported
+             | c0 :: r0 => do y <- qfmt r0 pargs; Ok (c0 :: y)
+             end) in H.
+          change (fmt_go d (S f) st (c :: c2 :: x2) args) with
+            (match c :: c2 :: x2 with
+             | [] => match args with [] => Ok [] | _ => Err (match d with Asp => EUnsupported | Py => EType end) end
+             | 37%N :: 37%N :: r0 => do y <- fmt_go d (S f) st r0 args; Ok (37%N :: y)
+             | 37%N :: 115%N :: r0 =>
+                 match args with
+                 | a :: ar => do z <- vstr d (S f) st true a; do y <- fmt_go d (S f) st r0 ar; Ok (z ++ y)
+                 | [] => Err (match d with Asp => EUnsupported | Py => EType end)
+                 end
+             | 37%N :: 100%N :: r0 =>
+                 match args with
+                 | VInt z :: ar => do y <- fmt_go d (S f) st r0 ar; Ok (z_to_str z ++ y)
+                 | _ => Err (match d with Asp => EUnsupported | Py => EType end)
+                 end
+             | 37%N :: _ => Err EUnsupported
+             | c0 :: r0 => do y <- fmt_go d (S f) st r0 args; Ok (c0 :: y)
+             end).
+          cbv beta iota in H |- *.
+          split_char; try discriminate; first [ now apply Hother2 | now apply Hpct | now apply Hs | now apply Hd ].
+  Qed.
+
+  Lemma fold_env_set_rel' : forall h pairs ppairs acc pacc, env_rel d h pairs ppairs -> env_rel d h acc pacc ->
+    env_rel d h (fold_left (fun acc kv => env_set (fst kv) (snd kv) acc) pairs acc)
+                (fold_left (fun acc kv => qenv_set (fst kv) (snd kv) acc) ppairs pacc).
+  Proof.
+    intros h pairs ppairs acc pacc H. revert acc pacc. induction H as [|kv pkv pairs ppairs [H1 H2] _ IH]; intros acc pacc Ha; cbn [fold_left].
+    - exact Ha.
+    - apply IH. rewrite H1. now apply env_set_rel.
+  Qed.
+
   Lemma apply_bin_sim : forall fuel o pa pb p st va vb,
     vr st pa va -> vr st pb vb -> qapply_bin chk fuel o pa pb = Ok p -> sim st (apply_bin d fuel o va vb st) p.
   Proof.
@@ -116,6 +211,18 @@ Section Prim.
       assert (Hadd : exists sl st', list_add d s1 (list_items d st s2) st = (sl, st') /\ xle st st' /\ vr st' (QList (l ++ l0)) (VList sl)).
       { unfold list_add. destruct d; apply alloc_vrel; try exact Hall; try discriminate. intros _. lia. }
       destruct Hadd as (sl & st' & E & Hx & Hv). rewrite E. exists (VList sl), st'. now split.
+    - (* "fmt" % int *)
+      subst va vb. destruct (qfmt x [QInt z]) as [r| |] eqn:Ef; try discriminate. cbn [rbind] in H. injection H as <-.
+      assert (Hf : fmt_go d (S f) st x [VInt z] = Ok r).
+      { apply (fmt_rel f st (length x) x [QInt z]); [lia| |exact Ef]. constructor; [reflexivity|constructor]. }
+      change (apply_bin d (S f) Mod (VStr x) (VInt z) st) with (do l <- Ok [VInt z]; do r0 <- fmt_go d (S f) st x l; Ok (VStr r0, st)).
+      cbn [rbind]. rewrite Hf. cbn [rbind]. eapply ok_here; reflexivity.
+    - (* "fmt" % str *)
+      subst va vb. destruct (qfmt x [QStr x0]) as [r| |] eqn:Ef; try discriminate. cbn [rbind] in H. injection H as <-.
+      assert (Hf : fmt_go d (S f) st x [VStr x0] = Ok r).
+      { apply (fmt_rel f st (length x) x [QStr x0]); [lia| |exact Ef]. constructor; [reflexivity|constructor]. }
+      change (apply_bin d (S f) Mod (VStr x) (VStr x0) st) with (do l <- Ok [VStr x0]; do r0 <- fmt_go d (S f) st x l; Ok (VStr r0, st)).
+      cbn [rbind]. rewrite Hf. cbn [rbind]. eapply ok_here; reflexivity.
     - (* Eq *) cbn [qapply_bin] in H. destruct (qeq pa pb) as [e|] eqn:E; [|discriminate]. injection H as <-.
       eapply ok_here; [exact (proj1 (Heq e eq_refl))|reflexivity].
     - (* Ne *) cbn [qapply_bin] in H. destruct (qeq pa pb) as [e|] eqn:E; [|discriminate]. injection H as <-.
@@ -124,7 +231,20 @@ Section Prim.
     - (* NotIn *) cbn [qapply_bin] in H. now apply (Hin true).
     - cbn [qapply_bin] in H. destruct pa, pb; discriminate.
     - cbn [qapply_bin] in H. destruct pa, pb; discriminate.
-    - cbn [qapply_bin] in H. destruct pa, pb; discriminate.
+    - (* d | e *)
+      cbn [qapply_bin] in H. destruct pa, pb; try discriminate. cbv zeta in H.
+      destruct (ssorted _) eqn:Ess; [|discriminate]. injection H as <-.
+      apply vrel_dict in Ha. destruct Ha as (i & es & -> & Ei & _ & Hes).
+      apply vrel_dict in Hb. destruct Hb as (j & es' & -> & Ej & _ & Hes').
+      cbn [hp snd] in Ei, Ej.
+      change (apply_bin d (S f) Union (VDict i) (VDict j) st)
+        with (let merged := fold_left (fun acc kv => env_set (fst kv) (snd kv) acc) (dict_of st j) (dict_of st i) in
+              let '(n, st1) := alloc_dict merged st in Ok (VDict n, st1)).
+      unfold dict_of, alloc_dict. rewrite (nth_error_nth _ _ _ Ei), (nth_error_nth _ _ _ Ej). cbv zeta.
+      eexists. eexists. split; [reflexivity|]. split; [apply xle_set_dicts|].
+      apply vrel_dict. eexists. eexists. split; [reflexivity|]. cbn [hp snd set_dicts dicts]. split; [|split; [exact Ess|]].
+      + rewrite nth_error_app2 by lia. rewrite Nat.sub_diag. reflexivity.
+      + apply (env_rel_mono d (hp st)); [apply (x_heap _ _ (xle_set_dicts st _))|]. now apply fold_env_set_rel'.
     - cbn [qapply_bin] in H. destruct pa, pb; discriminate.
     - cbn [qapply_bin] in H. destruct pa, pb; discriminate.
   Qed.
@@ -239,5 +359,99 @@ Section Prim.
       cbn [vindex]. unfold dict_of. cbn [hp snd] in H2. rewrite (nth_error_nth _ _ _ H2).
       pose proof (env_get_rel d _ x _ _ H4) as Hg. destruct (qenv_get x kvs) as [q|]; [|discriminate]. injection H as <-.
       destruct Hg as (v & -> & Hv). now exists v.
+  Qed.
+  (* ---- slices ---- *)
+  Definition ovrel (h : heap) (po : option qval) (o : option value) : Prop :=
+    match po, o with
+    | None, None => True
+    | Some p, Some v => vrel d h p v
+    | _, _ => False
+    end.
+
+  Lemma py_index_slice_le : forall len i a, py_index len i true = Ok a -> a <= Z.of_nat len.
+  Proof.
+    intros len i a H. unfold py_index in H. destruct (i <? 0) eqn:E1; [injection H as <-; lia|].
+    destruct (i >? Z.of_nat len) eqn:E2; injection H as <-; lia.
+  Qed.
+
+  Lemma qbound_le : forall len po def a, qbound len po def = Ok a -> def <= Z.of_nat len -> a <= Z.of_nat len.
+  Proof.
+    intros len po def a H Hd. destruct po as [[i| | | | | |]|]; cbn [qbound] in H; try discriminate.
+    - now apply (py_index_slice_le len i).
+    - injection H as <-. exact Hd.
+  Qed.
+
+  Lemma bound_asp : forall h len po o def a, qbound len po def = Ok a -> ovrel h po o ->
+    match o with
+    | None => Ok def
+    | Some (VInt i) => py_index len i true
+    | Some _ => Err EType
+    end = Ok a.
+  Proof.
+    intros h len po o def a H Ho. destruct po as [p|], o as [v|]; cbn [ovrel] in Ho; try contradiction; [|exact H].
+    destruct p; cbn [qbound] in H; try discriminate. cbn [vrel] in Ho. subst v. exact H.
+  Qed.
+
+  Lemma bound_py : forall h len po o def a, qbound len po def = Ok a -> ovrel h po o -> 0 <= a -> 0 <= def <= Z.of_nat len ->
+    match o with
+    | None => Ok def
+    | Some (VInt i) => Ok (Z.max 0 (Z.min (Z.of_nat len) (if i <? 0 then Z.of_nat len + i else i)))
+    | Some _ => Err EType
+    end = Ok a.
+  Proof.
+    intros h len po o def a H Ho Ha Hd. destruct po as [p|], o as [v|]; cbn [ovrel] in Ho; try contradiction; [|exact H].
+    destruct p; cbn [qbound] in H; try discriminate. cbn [vrel] in Ho. subst v. f_equal.
+    unfold py_index in H. destruct (z <? 0) eqn:E1; [injection H as <-; lia|].
+    destruct (z >? Z.of_nat len) eqn:E2; injection H as <-; lia.
+  Qed.
+
+  Lemma qcut_length : forall {A} (l : list A) a b, 0 <= a -> a <= b -> b <= Z.of_nat (length l) ->
+    length (qcut l a b) = Z.to_nat (b - a).
+  Proof. intros A l a b H1 H2 H3. unfold qcut. rewrite firstn_length, skipn_length. lia. Qed.
+
+  Lemma vslice_sim : forall st pobj obj plo lo phi hi p, vr st pobj obj -> ovrel (hp st) plo lo -> ovrel (hp st) phi hi ->
+    qslice pobj plo phi = Ok p -> sim st (vslice d st obj lo hi) p.
+  Proof.
+    intros st pobj obj plo lo phi hi p Ho Hlo Hhi H. unfold qslice in H. destruct pobj; try discriminate.
+    - (* strings *)
+      cbn [vrel] in Ho. subst obj. destruct (existsb is_cont x) eqn:Ec; [discriminate|].
+      destruct (qbound (length x) plo 0) as [a| |] eqn:Ea; try discriminate. cbn [rbind] in H.
+      destruct (qbound (length x) phi (Z.of_nat (length x))) as [b| |] eqn:Eb; try discriminate. cbn [rbind] in H.
+      destruct ((0 <=? a) && (a <=? b)) eqn:Eab; [|discriminate]. injection H as <-.
+      apply andb_prop in Eab. destruct Eab as [Ea0 Eab]. apply Z.leb_le in Ea0, Eab.
+      pose proof (qbound_le _ _ _ _ Eb (Z.le_refl _)) as Hb.
+      unfold vslice. destruct d.
+      + rewrite (rune_count_plain x Ec). cbv zeta beta.
+        rewrite (bound_asp (hp st) _ _ _ _ _ Ea Hlo), (bound_asp (hp st) _ _ _ _ _ Eb Hhi). cbn [rbind].
+        replace ((0 <=? a) && (a <=? b)) with true by (symmetry; apply andb_true_intro; split; now apply Z.leb_le).
+        eexists; exists st; split; [reflexivity|]; split; [apply xle_refl|reflexivity].
+      + cbv zeta beta. rewrite (runes_plain x Ec), map_length.
+        rewrite (bound_py (hp st) _ _ _ _ _ Ea Hlo Ea0 ltac:(lia)), (bound_py (hp st) _ _ _ _ _ Eb Hhi ltac:(lia) ltac:(lia)). cbn [rbind].
+        rewrite skipn_map, firstn_map, str_concat_singles. eexists; exists st; split; [reflexivity|]; split; [apply xle_refl|reflexivity].
+    - (* lists *)
+      pose proof Ho as Ho'. apply vrel_list in Ho'. destruct Ho' as (sl & cells & -> & Hn & Hlen & Hitems). cbn [hp fst] in Hn.
+      destruct (qbound (length l) plo 0) as [a| |] eqn:Ea; try discriminate. cbn [rbind] in H.
+      destruct (qbound (length l) phi (Z.of_nat (length l))) as [b| |] eqn:Eb; try discriminate. cbn [rbind] in H.
+      destruct ((0 <=? a) && (a <=? b)) eqn:Eab; [|discriminate]. injection H as <-.
+      apply andb_prop in Eab. destruct Eab as [Ea0 Eab]. apply Z.leb_le in Ea0, Eab.
+      pose proof (qbound_le _ _ _ _ Eb (Z.le_refl _)) as Hb.
+      assert (Hcut : forall items, vrels d (hp st) l items -> vrels d (hp st) (qcut l a b) (qcut items a b)).
+      { intros items Hi. unfold qcut, vrels. apply Forall2_firstn, Forall2_skipn. exact Hi. }
+      unfold vslice. revert Hitems. destruct d; intros Hitems.
+      + cbv zeta beta. rewrite Hlen.
+        rewrite (bound_asp (hp st) _ _ _ _ _ Ea Hlo), (bound_asp (hp st) _ _ _ _ _ Eb Hhi). cbn [rbind].
+        replace ((0 <=? a) && (a <=? b)) with true by (symmetry; apply andb_true_intro; split; now apply Z.leb_le).
+        eexists; exists st; split; [reflexivity|]; split; [apply xle_refl|]. apply vrel_list. eexists. exists cells. split; [reflexivity|]. cbn [s_arr s_len s_off hp fst].
+        split; [exact Hn|]. split; [symmetry; now apply qcut_length|].
+        unfold lview in *. cbn [s_len s_off]. rewrite Hlen in Hitems.
+        rewrite <- (slice_view cells (s_off sl) (length l) (Z.to_nat a) (Z.to_nat (b - a))) by lia.
+        exact (Hcut _ Hitems).
+      + cbv zeta beta. unfold list_items, arr_of. rewrite (nth_error_nth _ _ _ Hn). unfold lview in Hitems.
+        rewrite (vrels_length _ _ _ _ Hitems).
+        rewrite (bound_py (hp st) _ _ _ _ _ Ea Hlo Ea0 ltac:(lia)), (bound_py (hp st) _ _ _ _ _ Eb Hhi ltac:(lia) ltac:(lia)). cbn [rbind].
+        destruct (alloc_vrel Py st (qcut l a b) (qcut cells a b) 0%nat) as (sl' & st' & E & Hx & Hv).
+        * now apply Hcut.
+        * intros _. lia.
+        * unfold qcut in E. rewrite E. exists (VList sl'), st'. now split.
   Qed.
 End Prim.
